@@ -1,4 +1,6 @@
 import Batteries.Tactic.Alias
+import GenlmModel.Proofs.DerivSkip
+import GenlmModel.Proofs.Deriv
 import GenlmModel.Proofs.PrefixT
 /-! # C03 — prefix weights -/
 namespace Genlm.Props.C03
@@ -6,4 +8,13 @@ namespace Genlm.Props.C03
 alias prefix_transducer_unique := Genlm.prefix_transducer_unique'
 alias prefix_transducer_total := Genlm.prefix_transducer_total
 alias prefix_transducer_oov := Genlm.prefix_transducer_oov
+/-- derivative grammar, no ε-derivations: exact level identity `WN D n (X/a) y = WN G n X (a·y)` -/
+alias derivative_eps_free := Genlm.derivative_eps_free
+/-- general case, relative to null weights attained by the ε-derivation sums -/
+alias derivative_spec := Genlm.derivative_spec
+alias derivative_limit := Genlm.derivative_limit
+alias derivative_keeps_old_symbols := Genlm.derivative_old
+/-- differentiating twice by the same token (the SKIP re-use of existing slash symbols) -/
+alias derivative_twice_le := Genlm.derivative_twice_le
+alias derivative_twice_ge := Genlm.derivative_twice_ge
 end Genlm.Props.C03
